@@ -231,14 +231,14 @@ def subchecks(tier):
     # jump is not clipped on mode 1, the next HALS sweep starts from an infeasible B and the objective rises)
     for grp in ("plain", "nn", "linesearch", "linesearch_nn1"):
         pits = {"nn": [3, 4], "linesearch": [8, 9, 11], "linesearch_nn1": [8, 9]}.get(grp, [3, 5, 8])
-        q = {"nn": 15, "linesearch": 15, "linesearch_nn1": 8}.get(grp, 30)
+        q = {"nn": 15, "linesearch": 10, "linesearch_nn1": 6}.get(grp, 30)
         nnc = ([0], [2], [0, 2]) if grp == "linesearch" else ([0], [2], [0, 2], "all", [1], [0, 1])
         add(f"parafac2/{grp}/objective", g.parafac2_case(grp, iters=pits, tols=TOL, nn_choices=nnc),
             o_objective(F2, "prefix"), quick=q, thorough=4 * q)
         add(f"parafac2/{grp}/reported", g.parafac2_case(grp, iters=pits, tols=TOL, nn_choices=nnc),
             o_reported(F2, "prefix"), quick=q, thorough=4 * q)
 
-    add("parafac2/linesearch_step/objective", ls_step_case(), o_ls_step(F2), quick=60, thorough=300)
+    add("parafac2/linesearch_step/objective", ls_step_case(), o_ls_step(F2), quick=40, thorough=300)
 
     # --- tensor ring ALS (callback iterates) -----------------------------------------
     TR = xi.TensorRingALS()
